@@ -55,9 +55,12 @@ type program struct {
 	retry    uint64
 	start    int // 0 closed one short of tripping, 1 open near the deadline, 2 half-open with the probe in flight
 	early    uint64
-	preHeld  []int // entries each task holds at the start (obtained while closed)
-	eras     []era // scripted eras (nil: free schedule with ticks as schedule actions)
-	blocker  bool  // a second breaker on the resource, after the one under test, that stays open: every probe of
+	preHeld  []int  // entries each task holds at the start (obtained while closed)
+	eras     []era  // scripted eras (nil: free schedule with ticks as schedule actions)
+	statIv   uint32 // statistic interval of the rule in ms (0 = 10000)
+	buckets  uint32 // bucket count of the rule's window (0 = 1)
+	laPoints bool   // the accesses of the breaker's own bucket array are scheduling points too
+	blocker  bool   // a second breaker on the resource, after the one under test, that stays open: every probe of
 	// the first is blocked by it and rolled back to open by the probe's exit hook
 	tasks     [][]int
 	tickKinds []uint64
@@ -119,6 +122,12 @@ func execute2(c *hx.Case, p program, choose func(enabled []int, last int) int, t
 	if p.strategy == model.SlowRequestRatio {
 		rule.MaxAllowedRtMs = 0 // rt > 0 is slow: a completion is "bad" iff the clock advanced since its entry
 	}
+	if p.statIv != 0 {
+		rule.StatIntervalMs = p.statIv
+	}
+	if p.buckets != 0 {
+		rule.StatSlidingWindowBucketCount = p.buckets
+	}
 	rules := []*cb.Rule{rule}
 	if p.blocker {
 		rules = append(rules, &cb.Rule{Id: "blk", Resource: "res", Strategy: cb.ErrorCount, RetryTimeoutMs: 3600000, MinRequestAmount: 1,
@@ -175,6 +184,10 @@ func execute2(c *hx.Case, p program, choose func(enabled []int, last int) int, t
 	}
 
 	s := sched.New("cb.")
+	if p.laPoints {
+		s.Close()
+		s = sched.New("cb.", "la.")
+	}
 	defer s.Close()
 	stepNo := 0
 	var ops []*opRec
@@ -535,6 +548,18 @@ func basePrograms() []program {
 			for _, gap := range []uint64{0, 4} {
 				ps = append(ps, program{strategy: st, probeNum: probe, retry: 5, start: 0, preHeld: []int{1, 1, 1, 0}, tasks: [][]int{{oExitErr}, {oExitErr}, {oExitErr, oEntry}, {oEntry, oExitOK}},
 					eras: []era{{0, []int{0, 1}}, {5, []int{3}}, {1, []int{3, 2}}, {gap, []int{2}}}})
+			}
+		}
+		// half-open with several probes allowed, a window of two buckets, the accesses of the breaker's bucket array as scheduling
+		// points: the first probe's completion is suspended inside the array while a whole statistic interval passes and a
+		// second probe comes and goes (its sample is then refused by the array): whatever the breaker does with such a
+		// completion, every transition is reported
+		if probe == 2 {
+			for _, st := range []int{model.ErrorCount, model.ErrorRatio, model.SlowRequestRatio} {
+				for _, second := range []int{oExitOK, oExitErr} {
+					ps = append(ps, program{strategy: st, probeNum: 2, retry: 5, start: 2, preHeld: []int{0, 0}, statIv: 20, buckets: 2, laPoints: true,
+						tasks: [][]int{{oExitOK}, {oEntry, second}}, eras: []era{{0, []int{0}}, {20, []int{1}}, {0, []int{1}}}})
+				}
 			}
 		}
 		// open, deadline passed, a second open breaker behind it: the probe is blocked and rolled back while a request
